@@ -189,7 +189,20 @@ def r14_1(prog: Program, chk: Check) -> None:
 
 
 # --------------------------------------------------------------------- R14.2
-VALUE_ANN = re.compile(r"\b(Value|Extension|KVPair|TypedDictEntry|Signature|MaybeSignature|ConcreteSignature|Composite|ActualArguments)\b")
+_VALUE_NAMES: Set[str] = set()
+
+
+class _ValueAnn:
+    """Does an annotation mention a value-like type (any Value / Extension
+    subclass, signatures, composites, entries)?"""
+
+    BASE = {"KVPair", "TypedDictEntry", "Signature", "MaybeSignature", "ConcreteSignature", "OverloadedSignature", "BoundMethodSignature", "Composite", "ActualArguments"}
+
+    def search(self, text: str) -> bool:
+        return any(tok in _VALUE_NAMES or tok in self.BASE for tok in re.findall(r"[A-Za-z_]\w*", text))
+
+
+VALUE_ANN = _ValueAnn()
 
 # fields that are deliberately not traversed / substituted: (class, field, method) -> reason
 R142_EXCEPTIONS: Dict[Tuple[str, str, str], str] = {
@@ -247,6 +260,9 @@ def _covered(prog: Program, cname: str, meth: str, fname: str) -> Tuple[bool, st
 
 
 def r14_2(prog: Program, chk: Check) -> None:
+    _VALUE_NAMES.clear()
+    _VALUE_NAMES.update(prog.subclasses("Value"))
+    _VALUE_NAMES.update(prog.subclasses("Extension"))
     chk.rule(
         "R14.2",
         "substitute_typevars and walk_values mention every Value-typed field of every value/extension class",
@@ -290,6 +306,103 @@ def r14_2(prog: Program, chk: Check) -> None:
 
 
 # --------------------------------------------------------------------- R14.3
+UNORDERED_ANN = re.compile(r"^(dict|Dict|Mapping|MutableMapping|set|Set|frozenset|FrozenSet|AbstractSet)\b")
+CANONICALISERS = {"sorted", "frozenset", "len"}
+
+
+def r14_1b(prog: Program, chk: Check) -> None:
+    """A hand-written __hash__ over a field whose equality ignores order (dict,
+    set) must canonicalise the order (sorted / frozenset): tuple(d) keeps
+    insertion order while d1 == d2 ignores it."""
+    for cname in sorted(prog.classes):
+        ci = prog.cls(cname)
+        fn = ci.methods.get("__hash__")
+        if fn is None or _hash_is_identity(fn):
+            continue
+        fields = {f.name: f for f in prog.all_fields(cname)}
+        # plain classes: attributes annotated in the class body
+        for f in ci.own_fields:
+            fields.setdefault(f.name, f)
+        for n in ast.walk(fn):
+            if isinstance(n, ast.Attribute) and isinstance(n.value, ast.Name) and n.value.id == "self" and n.attr in fields:
+                f = fields[n.attr]
+                if f.annotation is None or not UNORDERED_ANN.match(norm(f.annotation)):
+                    continue
+                ok = False
+                p = parent(n)
+                # self.f.items() / .keys() / .values() count as the field itself
+                node = n
+                while isinstance(p, (ast.Attribute, ast.Call)) and (isinstance(p, ast.Attribute) and p.attr in ("items", "keys", "values") or isinstance(p, ast.Call) and p.func is node):
+                    node = p
+                    p = parent(p)
+                q = node
+                while p is not None and p is not fn:
+                    if isinstance(p, ast.Call) and isinstance(p.func, ast.Name) and p.func.id in CANONICALISERS and any(a is q for a in p.args):
+                        ok = True
+                        break
+                    if isinstance(p, ast.Call) and isinstance(p.func, ast.Name) and p.func.id in ("tuple", "list", "hash", "iter", "str", "repr"):
+                        break
+                    q = p
+                    p = parent(p)
+                chk.ob(
+                    "R14.1",
+                    f"{ci.module.name}::{cname}.__hash__::unordered-field={n.attr}",
+                    ok,
+                    prog.site(ci.module, n),
+                    f"__hash__ reads `self.{n.attr}` ({norm(f.annotation)[:30]}) without sorted()/frozenset(): two objects whose {n.attr} are equal but were built in a different order hash differently",
+                )
+
+
+def r14_2b(prog: Program, chk: Check) -> None:
+    """`return self` in substitute_typevars of a class with Value-typed fields is
+    only sound under a guard that rules out type variables in those fields."""
+    for cname in sorted(set(prog.subclasses("Value", strict=True)) | set(prog.subclasses("Extension", strict=True)) | {"Signature", "OverloadedSignature", "BoundMethodSignature", "SigParameter", "Composite", "KVPair"}):
+        if cname not in prog.classes:
+            continue
+        ci = prog.cls(cname)
+        fn = ci.methods.get("substitute_typevars")
+        if fn is None:
+            continue
+        vfields = [f.name for f in prog.all_fields(cname) if f.annotation is not None and not f.is_initvar and VALUE_ANN.search(norm(f.annotation))]
+        if cname in ("Signature", "OverloadedSignature"):
+            vfields = vfields or ["parameters", "return_value", "signatures"]
+        if not vfields:
+            continue
+        from .common import guards_of
+
+        params = [a.arg for a in fn.args.args]
+        tv = params[1] if len(params) > 1 else "typevars"
+        i = 0
+        for r in ast.walk(fn):
+            if not (isinstance(r, ast.Return) and r.value is not None and norm(r.value) == "self"):
+                continue
+            i += 1
+            gs = [(g, pol) for g, pol in guards_of(r, fn)]
+            ok = False
+            why = []
+            for g, pol in gs:
+                t = norm(g)
+                parts = [norm(v) for v in g.values] if isinstance(g, ast.BoolOp) else [t]
+                for part in parts:
+                    if pol and part == f"not {tv}":
+                        ok = True
+                    if pol and any(part == f"not self.{f}" for f in vfields):
+                        ok = True
+                # identity-preserving optimisation: the substituted results are compared with the originals
+                if pol and any((f"== self.{f}" in t or f"self.{f} ==" in t) for f in vfields):
+                    ok = True
+                if pol and "all(" in t and " is " in t and any(f"self.{f}" in t for f in vfields):
+                    ok = True
+                why.append(t[:60])
+            chk.ob(
+                "R14.2",
+                f"{ci.module.name}::{cname}.substitute_typevars::identity-return#{i}",
+                ok,
+                prog.site(ci.module, r),
+                f"`return self` under {why or 'no guard'} skips substitution although {cname} has value-typed fields {vfields}: a type variable nested in them survives",
+            )
+
+
 def r14_3(prog: Program, chk: Check) -> None:
     chk.rule("R14.3", "unions never nest; de-duplication is insertion-ordered (dict, not set)", floor=6)
     ci = prog.cls("MultiValuedValue")
@@ -355,5 +468,7 @@ def r14_3(prog: Program, chk: Check) -> None:
 
 def run(prog: Program, chk: Check) -> None:
     r14_1(prog, chk)
+    r14_1b(prog, chk)
     r14_2(prog, chk)
+    r14_2b(prog, chk)
     r14_3(prog, chk)
